@@ -219,6 +219,9 @@ func (x *Explorer) runPath(solver *smt.Solver, prefix []int) {
 	defer x.mu.Unlock()
 	x.Paths = append(x.Paths, res)
 	x.TotalSteps += in.Steps
+	for f, n := range in.FnSteps {
+		x.FnSteps[f.String()] += n
+	}
 	switch res.End {
 	case "unmodelled", "unwind", "stepcap", "internal":
 		// Only inconclusive when the path is feasible (eager forking guarantees feasibility at the
